@@ -461,3 +461,50 @@ fn c04_b2_view_storage_36() {
 fn c04_b2_view_serial_26() {
     view_independent::<26>(false);
 }
+
+/// L1c field extraction for ALL 256 header-type bytes at once: DltMessage::from_headers on the additional-header bytes of a
+/// message with symbolic htyp (so all 16 combinations of ECU id / session id / timestamp / extended header, plus the free
+/// bits) - ECU, timestamp and extended header come from the right offsets. (The accept shapes enumerate the same 16
+/// combinations through the whole parser, but only the thorough tier runs all of them; added after seeded change C01-4.)
+#[kani::proof]
+#[kani::unwind(6)]
+fn c01_from_headers_fields() {
+    let htyp: u8 = kani::any();
+    let add: [u8; 22] = kani::any(); // 4 ecu + 4 session + 4 timestamp + 10 extended header at most
+    let stdh = DltStandardHeader { htyp, mcnt: kani::any(), len: kani::any() };
+    let alen = stdh.std_ext_header_size() as usize - DLT_MIN_STD_HEADER_SIZE;
+    let sh = DltStorageHeader { secs: kani::any(), micros: kani::any(), ecu: DltChar4::from_buf(&kani::any::<[u8; 4]>()) };
+    let sh_ecu = sh.ecu;
+    let m = DltMessage::from_headers(kani::any(), sh, stdh, &add[..alen], Vec::new());
+    let mut off = 0usize;
+    let ecu = m.ecu.as_buf();
+    if htyp & F_WEID != 0 {
+        assert!(ecu[0] == add[off] && ecu[1] == add[off + 1] && ecu[2] == add[off + 2] && ecu[3] == add[off + 3]);
+        off += 4;
+    } else {
+        assert!(m.ecu == sh_ecu);
+    }
+    if htyp & F_WSID != 0 {
+        off += 4;
+    }
+    if htyp & F_WTMS != 0 {
+        assert_eq!(m.timestamp_dms, u32::from_be_bytes([add[off], add[off + 1], add[off + 2], add[off + 3]]));
+        off += 4;
+    } else {
+        assert_eq!(m.timestamp_dms, 0);
+    }
+    match &m.extended_header {
+        Some(e) => {
+            assert!(htyp & F_EXT != 0);
+            assert!(e.verb_mstp_mtin == add[off] && e.noar == add[off + 1]);
+            let (a, c) = (e.apid.as_buf(), e.ctid.as_buf());
+            assert!(a[0] == add[off + 2] && a[3] == add[off + 5] && c[0] == add[off + 6] && c[3] == add[off + 9]);
+            off += 10;
+        }
+        None => assert!(htyp & F_EXT == 0),
+    }
+    assert_eq!(off, alen);
+    kani::cover!(htyp & 0x1c == 0x18 && htyp & F_EXT != 0, "session id + timestamp without ECU id, with extended header");
+    kani::cover!(htyp & 0x1d == 0, "no optional parts");
+    std::mem::forget(m);
+}
